@@ -236,6 +236,10 @@ DoFinalize(ms, fapi) ==
   IN IF ~cx.ex \/ ~ms.got THEN [ms EXCEPT !.last = obs("skip", ms.ent)]
      ELSE IF cx.late /\ "LateLockTrustsReply" \notin Dev /\ ~LateRequestOK(cx, p)
      THEN [ms EXCEPT !.fin = "err:proof", !.last = obs("err:proof", ms.ent)]
+     \* never locked: the change outputs were never stored, repopulate_tx silently skips them and
+     \* the rebuilt transaction does not balance (tx::complete_tx, before the proof is looked at)
+     ELSE IF ~cx.late /\ ~ms.ent.ex /\ Sel(c).chg > 0
+     THEN [ms EXCEPT !.fin = "err:other:Transaction", !.last = obs("err:other:Transaction", ms.ent)]
      ELSE
        LET e1 == IF cx.late THEN LockEntry(cx, Sel(c), p, "rpart") ELSE ms.ent
            cx1 == [cx EXCEPT !.late = FALSE]
